@@ -1152,6 +1152,8 @@ theorem acct_opArrive {w : World} (s key : Nat) (hA : Acct none w) : Acct none (
       · exact acct_finish s false (acct_emit _ A1) ht
       · rename_i h _
         have L2 : lk ({ (hostGet W s).2 with noteSent := false }) s = some {} := L1
+        split
+        · exact acct_finish s false (acct_emit _ (acct_updAux _ _ (acct_noteSent false A1) hto)) ht
         refine acct_runCon _ s (acct_emit _ (acct_updAux _ _ (acct_hostAssign s h ?_ ht ?_) hto))
         · refine acct_updLink s _ (acct_noteSent false A1) ht ?_
           intro l hl
